@@ -380,7 +380,7 @@ fn raw_bytes(t: &mut Tape, ctx: &mut Ctx) -> R {
 
 pub fn corpus_psets() -> Vec<(String, Vec<u8>)> {
     let mut out = Vec::new();
-    let dir = format!("{}/corpus/pset", VERIF_DIR);
+    let dir = format!("{}/corpus/pset", verif_dir());
     if let Ok(rd) = std::fs::read_dir(&dir) {
         let mut names: Vec<_> = rd.filter_map(|e| e.ok()).map(|e| e.path()).collect();
         names.sort();
